@@ -19,8 +19,9 @@ META = {
         "(a) every single exception over class kinds {builtin, module-level custom, nested class, local class, dynamically "
         "created with missing / None module, custom __init__ signature, keyword-only init, BaseException subclasses, OSError "
         "family, UnicodeDecodeError, ExceptionGroup, class with falsy __bool__ / __len__} x args tuples of arity <= 2 over "
-        "{JSON-native values, tuple, set, bytes, int-keyed dict, deep / recursive list, lambda, object with failing "
-        "__repr__/__str__, un-picklable object, lone-surrogate str, NaN}; (b) every chain shape of depth <= 3 over link kinds "
+"{JSON-native values, tuple, set, bytes, int-keyed dict, deep / recursive list, lambda, object with failing "
+        "__repr__/__str__, un-picklable object, object that pickles but cannot be unpickled (also inside a list), an "
+        "exception instance, lone-surrogate str, NaN}; (b) every chain shape of depth <= 3 over link kinds "
         "{cause, context, suppressed context, both to the same node, both to different nodes}; (c) every linear chain of depth "
         "<= 6 with per-edge link kind and every back-edge (cycle) position; each through four round trips (JSON text, JSON "
         "dict via model_dump(mode='json') + json, python dict, pickle). Oracle: no exception from dump or load; the loaded "
@@ -135,6 +136,9 @@ def arg_values() -> List[Tuple[str, Any]]:
         ("tuple", (1, 2)), ("set", {1}), ("bytes", b"x"), ("intdict", {1: 2}), ("deep", deep), ("recursive", rec),
         ("lambda", lambda: 0), ("badrepr", BadRepr()), ("onlystr", OnlyStr()), ("lock", threading.Lock()),
         ("surrogate", "\ud800"), ("nan", float("nan")), ("bigint", 2**70), ("uni", "é☃"),
+        # encodes but cannot be decoded again: an exception whose __init__ signature differs from its args
+        ("dumps_only_exc", _plant().CustomInit("a", 2)), ("list_with_dumps_only", [1, _plant().CustomInit("b", 3)]),
+        ("plain_exc_arg", ValueError("inner", 1)),
     ]
 
 
